@@ -333,11 +333,14 @@ def run_impl(cfg, ops, script, choices=(), replies=(), make_client=None, peer=No
     server, kw = client_kwargs(cfg, world)
     cl = make_client(server, kw) if make_client else Client(server, **kw)
     results = []
+    world.bounds = []
     for op in ops:
         try:
             results.append(("o", canon_value(apply_op(cl, op))))
         except BaseException as e:  # noqa
             results.append(("e", core.exn_name(e)))
+        sk = getattr(cl, "sock", None)
+        world.bounds.append((len(world.trace), sk.sid if sk is not None else None))
     sock = getattr(cl, "sock", None)
     return (results, [tuple(e) for e in world.trace], (sock.sid if sock is not None else None),
             len(world.script) - world.pos, max(0, len(world.choices) - world.cpos),
